@@ -65,7 +65,7 @@ def rules(ctx: Ctx) -> None:
             ctx.ob("R06.1", f"owner-before-insertion:{owner}:{var}", bad is None, loc(f.mod, s),
                    f"`{u(prog.enclosing_stmt(s))}` must not be reachable after `{var}` was inserted into a graph / holder / container"
                    + (f" (inserted by `{u(bad[1])[:50]}` at line {bad[0].lineno})" if bad else ""))
-    ctx.floor("owner stores (`.parent = ...`)", n_stores, 12)
+    ctx.floor("owner stores (`.parent = ...`)", n_stores, 11)
     # the setter is a set insertion (re-assigning the same owner is a no-op)
     setter = Column.setters.get("parent")
     ok_set = setter is not None and any(isinstance(k, ast.Call) and isinstance(k.func, ast.Attribute) and k.func.attr == "add" and "_parent" in u(k.func.value) for k in prog.walk_fn(setter))
